@@ -267,22 +267,25 @@ MANIFEST_TEXT = {'C02': {'text': 'Lean: C02_full_v2 : C02_Statement_v2 (Props/C0
                  'iff the original is, every address + D), reloc_fixOne_unmoved / _moved and reloc_bytes_unmoved / _moved (branches, PCR operands, label-label '
                  'and label-free operands emit identical bytes; label, label+k, label-k emit the same bytes with the 16-bit field + D), reloc_finish (symbol '
                  'table: labels + D, EQU constants unchanged) and reloc_finish_equ (an EQU defined by a label expression moves like an operand with that '
-                 'expression: T EQU L+1 by D, LEN EQU M-L not at all), lifted to parsed programs and source text (C18_R1_parsed, C18_R1_code, C18_R1 on the '
-                 "repaired statement: the literal C18_R1_Statement is false because an arbitrary 'label' string can turn the ORG line into a comment - "
-                 'C18_R1_Statement_false); classes with no claim are witnessed (reloc_crossing_100: JMP L is 2 bytes below $100; label*k; LEAX B-A,PCR). R2 '
-                 'RENAMING (Props/C18RenameFull, Lemmas/Rename*): C18_R2_full / C18_R2_back - for a renaming rho that is injective on the names occurring in '
-                 'the program and maps no symbol of an index left part to A / B / D or to a non-symbol (RenOK, decidable: renOKb), back (ss.map (renameStmt '
-                 'rho)) = (back ss).map (rnAssembly rho): the same outcome kind, statement by statement the same op code, post byte, size, address and bytes, '
-                 'the same image and origin, the symbol table with renamed keys and the same numbers (C18_R2_symtab) - pushed through every stage from '
-                 'buildSymTab to finalSymTab, index left parts re-parsed from text (SimpleLeft shapes: symbol, number, atom op atom); C18_R2_text_check lifts '
-                 'it to two concrete source texts by a decidable check, C18_R2_witness (labels in immediate, L,X, L+1,Y, PCR, [L,X], [L], branches, FCB/FDB, '
-                 'EQU positions renamed to ST_1, LOOP@, AB, XY, PCR, _Z). The first formalisation C18_R2_Statement is false because its relation RenamedStmt '
-                 'did not tie the operand text (PSHS A vs PSHS B with rho = id: C18_R2_Statement_false) - a slip of the statement, not of the assembler; '
+                 'expression: T EQU L+1 by D, LEN EQU M-L not at all), lifted to parsed programs and source text (C18_R1_parsed, C18_R1_code, C18_R1) and, AT '
+                 'ANY ORIGIN incl. moves across $100, the *_any family (Lemmas/RelocAny: the value-level relation WideAddr replaced by the int-level IntAddr; '
+                 'reloc_assign_iff_any, reloc_bytes_*_any, reloc_finish_any, C18_R1_code_any, C18_R1_equ_any; bytes and operand fields related exactly, '
+                 'addresses and label values as numbers; kernel-checked witness reloc_crossing_100_witness at $00F8 / $01F8) (on the repaired statement: the '
+                 "literal C18_R1_Statement is false because an arbitrary 'label' string can turn the ORG line into a comment - C18_R1_Statement_false); "
+                 'classes with no claim are witnessed (reloc_crossing_100: JMP L is 2 bytes below $100; label*k; LEAX B-A,PCR). R2 RENAMING '
+                 '(Props/C18RenameFull, Lemmas/Rename*): C18_R2_full / C18_R2_back - for a renaming rho that is injective on the names occurring in the '
+                 'program and maps no symbol of an index left part to A / B / D or to a non-symbol (RenOK, decidable: renOKb), back (ss.map (renameStmt rho)) '
+                 '= (back ss).map (rnAssembly rho): the same outcome kind, statement by statement the same op code, post byte, size, address and bytes, the '
+                 'same image and origin, the symbol table with renamed keys and the same numbers (C18_R2_symtab) - pushed through every stage from buildSymTab '
+                 'to finalSymTab, index left parts re-parsed from text (SimpleLeft shapes: symbol, number, atom op atom); C18_R2_text_check lifts it to two '
+                 'concrete source texts by a decidable check, C18_R2_witness (labels in immediate, L,X, L+1,Y, PCR, [L,X], [L], branches, FCB/FDB, EQU '
+                 'positions renamed to ST_1, LOOP@, AB, XY, PCR, _Z). The first formalisation C18_R2_Statement is false because its relation RenamedStmt did '
+                 'not tie the operand text (PSHS A vs PSHS B with rho = id: C18_R2_Statement_false) - a slip of the statement, not of the assembler; '
                  'C18_R2_full is the repaired form. Not covered by a closed theorem: the text-level lifting for every operand syntax (decided per program by '
                  'renamedTextB, and by the metamorphic oracle).',
          'design_ref': 'DESIGN.md section 5 C18',
-         'note': 'R1 theorems need every ORG at $100 or above (a limitation of the value-level relation, not of the code: the metamorphic oracle covers '
-                 'origins below $100 and moves across $100); finding S1 repaired by 4e31349',
+         'note': "R1: the *_any theorems need only o + D < 65536 (the older family additionally ORG >= $100 and says more about value renderings); R2's "
+                 'text-level lifting is per program; finding S1 repaired by 4e31349',
          'technique': 'Lean 4 proof (scanner canonical form; prefix stability through all passes) + metamorphic oracle on the implementation + differential '
                       'correspondence'},
  'C19': {'text': 'Lean: C19_full : C19_Statement - include_textual_full (for every file system, prefix, suffix and INCLUDE line: assembling with INCLUDE f '
